@@ -117,7 +117,7 @@ def body_factory(tier, seed):
         weird = [5, None, True, ["GenericError"], {"code": "GenericError"}, 0.5]
         hs = []
         for code in codes + undefined + weird:
-            for suppress in (False,):
+            for suppress in (False, True):
                 ops = [("start", 0, "u", "Heartbeat", {}, False, suppress, True),
                        ("inbound", json.dumps([4, "u", code, "dd", {"x": 1}]))]
                 hs.append(("1.6", [], ops, 30))
@@ -127,6 +127,11 @@ def body_factory(tier, seed):
             bad = []
             code = json.loads(ops[1][1])[2]
             oc = res["outcomes"].get(0)
+            if ops[0][6]:
+                # suppression on (the default): None for every CALLERROR, whatever its code
+                if not (oc and oc[0] == "none"):
+                    bad.append(("suppressed:%r" % (code,), "with suppression on, a CALLERROR with code %r reached the caller as %r, expected None" % (code, oc)))
+                return bad
             if isinstance(code, str) and code in codes:
                 want = classes[codes.index(code)].__name__
                 if not (oc and oc[0] == "ocpp" and oc[1][0] == want and oc[1][1] == "dd" and oc[1][2] == {"x": 1}):
